@@ -1,0 +1,88 @@
+//go:build verif
+// +build verif
+
+package ledgerstore
+
+import (
+	"github.com/polynetwork/poly/common"
+)
+
+// VerifCrashHook, when set, is called at every persistence point of block submission with the
+// point's name; the verification harness panics from it to model a process crash.
+var VerifCrashHook func(point string)
+
+func verifCrashPoint(point string) {
+	if VerifCrashHook != nil {
+		VerifCrashHook(point)
+	}
+}
+
+// VerifStateDump returns every key/value of the state store (contract state and bookkeeping).
+func (this *LedgerStoreImp) VerifStateDump() [][2][]byte {
+	var out [][2][]byte
+	iter := this.stateStore.store.NewIterator(nil)
+	for iter.Next() {
+		k := append([]byte(nil), iter.Key()...)
+		v := append([]byte(nil), iter.Value()...)
+		out = append(out, [2][]byte{k, v})
+	}
+	iter.Release()
+	return out
+}
+
+// VerifStateHeight returns the height recorded by the state store.
+func (this *LedgerStoreImp) VerifStateHeight() (uint32, error) {
+	_, h, err := this.stateStore.GetCurrentBlock()
+	return h, err
+}
+
+// VerifBlockMerkleTree returns the persisted compact block-hash accumulator.
+func (this *LedgerStoreImp) VerifBlockMerkleTree() (uint32, []common.Uint256, error) {
+	return this.stateStore.GetBlockMerkleTree()
+}
+
+// VerifBlockAccumulatorRoot returns size and root of the in-memory block-hash accumulator.
+func (this *LedgerStoreImp) VerifBlockAccumulatorRoot() (uint32, common.Uint256) {
+	return this.stateStore.merkleTree.TreeSize(), this.stateStore.merkleTree.Root()
+}
+
+// VerifPadHeaderIndex fills the in-memory header index with placeholder hashes for heights
+// [from, to) so that GetCurrentHeaderHeight() exceeds a threshold (quorum-regime checks).
+func (this *LedgerStoreImp) VerifPadHeaderIndex(from, to uint32) {
+	this.lock.Lock()
+	defer this.lock.Unlock()
+	for h := from; h < to; h++ {
+		if _, ok := this.headerIndex[h]; !ok {
+			this.headerIndex[h] = common.Uint256{1}
+		}
+	}
+}
+
+// VerifSetHeaderIndex replaces the in-memory header index (used to share one large padded map
+// between many ledgers instead of rebuilding it).
+func (this *LedgerStoreImp) VerifSetHeaderIndex(m map[uint32]common.Uint256) {
+	this.lock.Lock()
+	defer this.lock.Unlock()
+	this.headerIndex = m
+}
+
+// VerifHeaderIndex returns the in-memory header index map itself.
+func (this *LedgerStoreImp) VerifHeaderIndex() map[uint32]common.Uint256 {
+	this.lock.Lock()
+	defer this.lock.Unlock()
+	return this.headerIndex
+}
+
+// VerifPeerInfo returns copies of the validator sets in force on the header and block tracks.
+func (this *LedgerStoreImp) VerifPeerInfo() (header, block map[string]uint32) {
+	this.lock.RLock()
+	defer this.lock.RUnlock()
+	header, block = map[string]uint32{}, map[string]uint32{}
+	for k, v := range this.vbftPeerInfoheader {
+		header[k] = v
+	}
+	for k, v := range this.vbftPeerInfoblock {
+		block[k] = v
+	}
+	return
+}
